@@ -55,8 +55,9 @@ def monC16 : ObsMonitor Obs C16St where
       | none => none
     | .cbin f t =>
       match ms.calls[t]? with
-      | some c =>
-        if f = ms.fns.length ∧ !ms.fnRunning ∧ ms.okAt = none ∧ !c.ret then
+      | some _ =>
+        -- (the initiator may already have returned: the goroutine enters the function asynchronously)
+        if f = ms.fns.length ∧ !ms.fnRunning ∧ ms.okAt = none then
           some { ms with fns := ms.fns ++ [{ init := t }] }
         else none
       | none => none
